@@ -14,6 +14,8 @@
  * lengths of the successive Update calls ("-" = no call).  assert() failures are caught through
  * SIGABRT and reported as "assert".
  */
+/* single cases of this driver may run over gigabytes (the > 2^32-byte stream, the very long messages) */
+#define DRV_LINE_CPU_S 300
 #include "drv_common.h"
 
 #include <setjmp.h>
